@@ -76,10 +76,11 @@ impl Scenario for OsScenario {
             // round-robin ownership: maximal hand-over between tasks
             owner = (0..n).map(|i| i % writers).collect();
         }
-        let modes: Vec<usize> = (0..writers).map(|_| r.below(2)).collect(); // 0 = sequential, 1 = join_all in seeded order
+        let modes: Vec<usize> = (0..writers).map(|_| r.below(3)).collect(); // 0 = sequential, 1 = join_all in seeded order, 2 = sequential, first polled once with a throw-away waker (now_or_never) and then awaited
         let close = r.chance(3, 4);
         let est = 40 + (n as u64) * 12;
-        json!({
+        let reader_try_first = r.chance(1, 3);
+        json!({"reader_try_first": reader_try_first,
             "w": w, "cap_units": cap_units, "read_units": read_units, "n": n,
             "owner": owner, "modes": modes, "close": close, "order_seed": r.next_u64() >> 12,
             "sched": SchedSpec::draw(&mut r, est, 200_000),
@@ -110,6 +111,7 @@ where
     let owner = pvec(p, "owner");
     let modes = pvec(p, "modes");
     let close = pb(p, "close");
+    let reader_try_first = pb(p, "reader_try_first");
     let order_seed = pu64(p, "order_seed");
     let writers = modes.len();
     if writers == 0 || owner.len() < n || owner.iter().any(|o| *o >= writers) || read > cap || read == 0 {
@@ -147,6 +149,16 @@ where
                         for i in mine {
                             sender.send(i, Raw::<N>::tagged(7, i as u64)).await;
                         }
+                    } else if mode == 2 {
+                        // "try first, then wait": the first poll registers a waker that is gone afterwards; a future must
+                        // wake the waker of its most recent poll
+                        for i in mine {
+                            use futures::FutureExt;
+                            let mut f = std::pin::pin!(sender.send(i, Raw::<N>::tagged(7, i as u64)));
+                            if (&mut f).now_or_never().is_none() {
+                                f.await;
+                            }
+                        }
                     } else {
                         let mut order = mine.clone();
                         Rng::sub(order_seed, wr as u64).shuffle(&mut order);
@@ -172,7 +184,17 @@ where
                     let mut got = 0usize;
                     let mut stream = futures::stream::poll_fn(|cx| sender.take_next(cx));
                     while got < expect_bytes || close {
-                        match stream.next().await {
+                        let first = if reader_try_first {
+                            use futures::FutureExt;
+                            stream.next().now_or_never()
+                        } else {
+                            None
+                        };
+                        let item = match first {
+                            Some(x) => x,
+                            None => stream.next().await,
+                        };
+                        match item {
                             Some(chunk) => {
                                 got += chunk.len();
                                 log.lock().unwrap().chunks.push(chunk);
